@@ -316,6 +316,20 @@ def optimiser_runs(run, scratch, seed, nruns):
         if res.LR < -1e-9:
             run.fail(f"hypothesis:{null}-{alt}:negative-LR", {"LR": res.LR, "null_lnL": res.null.lnL, "alt_lnL": res.alt[0].lnL if hasattr(res.alt, '__getitem__') else None}, what="likelihood ratio of nested hypotheses is negative")
         meta.append((f"hypothesis {null} vs {alt}", {}, res.null.lnL, res.LR))
+    # nesting BY SCOPE through the apps (NestedScope.tla: the alternate refines the null's partition of the edges):
+    # the same substitution model, the alternate made time-heterogeneous; under an evaluation limit the alternate must
+    # still finish at or above the null (it starts from the null's fit), so LR >= 0
+    for sm_name, het, lim in (("HKY85", "max", 10), ("HKY85", [dict(edges=["Human", "Mouse"], is_independent=False)], 10), ("GTR", "max", 15), ("HKY85", "max", 25)):
+        m0 = get_app("model", sm_name, name="null", tree=fx["tree3"], opt_args=dict(max_evaluations=60, limit_action="ignore"), show_progress=False)
+        m1 = get_app("model", sm_name, name="alt", tree=fx["tree3"], time_het=het, opt_args=dict(max_evaluations=lim, limit_action="ignore"), show_progress=False)
+        res = get_app("hypothesis", m0, m1)(fx["dna185"])
+        shape = "max" if het == "max" else "edge-set"
+        if not res:
+            run.fail(f"hypothesis:scope:{shape}:not-completed", {"model": sm_name, "message": str(res)[:400]}, what="hypothesis app failed")
+            continue
+        meta.append((f"hypothesis {sm_name} vs {sm_name} time_het={shape}", dict(max_evaluations=lim), res.null.lnL, res.LR))
+        if res.LR < -1e-9:
+            run.fail(f"hypothesis:scope:{shape}:negative-LR", {"model": sm_name, "time_het": het, "max_evaluations": lim, "LR": res.LR, "null_lnL": res.null.lnL}, what="likelihood ratio of hypotheses nested by scope (same model, alternate time-heterogeneous) is negative")
     # validate the recorded runs against Optimiser.tla
     enc = rank_traces(rec.traces)
     tf = scratch / "opt-traces.json"
